@@ -115,10 +115,13 @@ class error_997_visitor(error_visitor.error_visitor):
         for elem in err_isa.elements:
             for (err_cde, err_str, bad_value) in elem.errors:
                 # Ugly
+                # an element beyond those the header or trailer defines has no code of its own
                 if 'ISA' in err_str:
-                    err_codes.append(isa_ele_err_map[elem.ele_pos])
+                    if elem.ele_pos in isa_ele_err_map:
+                        err_codes.append(isa_ele_err_map[elem.ele_pos])
                 elif 'IEA' in err_str:
-                    err_codes.append(iea_ele_err_map[elem.ele_pos])
+                    if elem.ele_pos in iea_ele_err_map:
+                        err_codes.append(iea_ele_err_map[elem.ele_pos])
 
         # Codes extracted from https://msdn.microsoft.com/en-us/library/bb246074.aspx
         reject_suspend_codes = set([
@@ -309,10 +312,13 @@ class error_997_visitor(error_visitor.error_visitor):
         for elem in err_st.elements:
             for (err_cde, err_str, bad_value) in elem.errors:
                 # Ugly
+                # only the identifier and the control number have a code of their own
                 if 'ST' in err_str:
-                    err_codes.append(st_ele_err_map[elem.ele_pos])
+                    if elem.ele_pos in st_ele_err_map:
+                        err_codes.append(st_ele_err_map[elem.ele_pos])
                 elif 'SE' in err_str:
-                    err_codes.append(se_ele_err_map[elem.ele_pos])
+                    if elem.ele_pos in se_ele_err_map:
+                        err_codes.append(se_ele_err_map[elem.ele_pos])
         # return unique codes
         ret = list(set(err_codes))
         ret.sort()
